@@ -327,15 +327,16 @@ class Html(base.Content):
     css_classes = cls.concate(css_classes)
     options = cls.concate(options)
     styles = cls.style_str(styles)
+    # NOTE: attribute values are data and must not break out of the quotes.
     s.write(
         f'<{tag}',
         f' {options}' if options else None,
-        f' class="{css_classes}"' if css_classes else None,
-        f' style="{styles}"' if styles else None,
+        f' class="{cls._attr_value(css_classes)}"' if css_classes else None,
+        f' style="{cls._attr_value(styles)}"' if styles else None,
     )
     for k, v in properties.items():
       if v is not None:
-        s.write(f' {k.replace("_", "-")}="{v}"')
+        s.write(f' {k.replace("_", "-")}="{cls._attr_value(v)}"')
     s.write('>')
 
     # Write the inner HTML.
@@ -346,6 +347,11 @@ class Html(base.Content):
     # Write the closing tag.
     s.write(f'</{tag}>')
     return s
+
+  @classmethod
+  def _attr_value(cls, value: Any) -> str:
+    """Escapes a value to be written between double quotes."""
+    return html_lib.escape(str(value), quote=False).replace('"', '&quot;')
 
   @classmethod
   def escape(
